@@ -1,10 +1,18 @@
 #!/bin/bash
-# Re-runs every seeded change against the check of its property (quick tier) and prints one line each.
+# Re-runs every seeded change against the check of its property (quick tier) and prints one line each:
+#   <name> <property> exit=<rc> <classes> classes, <n> violating episodes in the largest class
+# usage: tools/seeded_regression.sh [pattern] [parallel]     e.g.  tools/seeded_regression.sh 'C0[569]-*' 2
 cd /verif
-for d in seeded/*/; do
+pat=${1:-*}
+par=${2:-1}
+one() {
+  d=$1
   n=$(basename $d)
   prop=$(python3 -c "import json;print(json.load(open('$d/meta.json'))['property'])")
   out=$(tools/run_seeded.sh $d $prop 2>&1)
   rc=$(echo "$out" | grep -o "exit=[0-9]*" | head -1)
-  echo "$n $prop $rc $(echo "$out" | grep -c '^violation class') classes"
-done
+  eps=$(echo "$out" | grep '^violation class' | grep -o 'episodes=[0-9]*' | cut -d= -f2 | sort -n | tail -1)
+  echo "$n $prop $rc $(echo "$out" | grep -c '^violation class') classes, ${eps:-0} episodes"
+}
+export -f one
+ls -d seeded/$pat/ | xargs -P "$par" -I{} bash -c 'one {}'
